@@ -25,6 +25,11 @@ EXPRS = {
     "globq": {"text": "t?", "nodes": [["glob", 0, 0, "t"]], "root": 1},
     "globc": {"text": "@t[12]", "nodes": [["glob", 0, 0, "t"]], "root": 1},
     "not_globq": {"text": "not t?", "nodes": [["glob", 0, 0, "t"], ["not", 1, 0, ""]], "root": 2},
+    # several --tags options (AND-ed as a whole), one of them with a top-level `or` between parenthesised parts
+    "parts": {"text": "(t1 and t2) or (wip)", "more": ["@t1"], "nodes": [["lit", 0, 0, "t1"], ["lit", 0, 0, "t2"], ["and", 1, 2, ""],
+                                                                       ["lit", 0, 0, "wip"], ["or", 3, 4, ""], ["and", 5, 1, ""]], "root": 6},
+    "parts_v1": {"text": "t1,wip", "more": ["-t2"], "nodes": [["lit", 0, 0, "t1"], ["lit", 0, 0, "wip"], ["or", 1, 2, ""],
+                                                             ["lit", 0, 0, "t2"], ["not", 4, 0, ""], ["and", 3, 5, ""]], "root": 6},
     "v1": {"text": "-t1,t2", "nodes": [["lit", 0, 0, "t1"], ["not", 1, 0, ""], ["lit", 0, 0, "t2"], ["or", 2, 3, ""]], "root": 4},
     "wip": {"text": "wip", "nodes": [["lit", 0, 0, "wip"]], "root": 1},
     "not_wip": {"text": "not @wip", "nodes": [["lit", 0, 0, "wip"], ["not", 1, 0, ""]], "root": 2},
